@@ -528,18 +528,37 @@ End Dynamic.
    what it needs now.  Proved (proofs/EngineAmendProofs.v): a finished state is determined by the
    world (finished_a_unique); with the code's gating a remembered edge whose producer cannot run
    blocks a step that would no longer ask for it, and the result differs from a build from
-   scratch (props/C01.v, C01_D28_engine_refuted = D28).  NOT proved: that a build of the ungated
-   engine always ends in a finished state (it does on the witness). *)
+   scratch (props/C01.v, C01_D28_engine_refuted = D28); every build of the ungated engine from a
+   state that builds reach ends in a finished state (proofs/EngineAmendFull.v, a_build_ok), hence
+   the ungated engine satisfies the full statement (props/C01.v, C01_amend_full_holds).
+
+   Failing steps (builds with --keep-going).  Whether the command of a step fails is external
+   behaviour, the Section variable [fails]: a function of the step, of the contents of its
+   declared ++ amended inputs and of the values of its variables.  A run whose amended inputs are
+   all available and whose command fails ([DFail]) = Step.mark_completed(None, wants_defer=False):
+   state FAILED, the stored hash is deleted (an unsuccessful step is not skippable), the amended
+   edges of this run stay, the deferred flag is cleared (trigger on state FAILED), no output
+   becomes BUILT (update_file_hashes(..., FAILED)): consumers stay blocked, other steps go on
+   (keep_going; without it the scheduler drains after the first failure and which steps still ran
+   depends on the order: only "both builds fail" is comparable, normalisation 6 of the oracle).
+   FAILED is represented as PENDING plus the flag [afail].  Every build starts by making all FAILED
+   steps PENDING again (startup.reset_interrupted_steps on a restart,
+   DirectorHandler.start_build_phase in watch mode): [resync_a] clears the flags; a failed step
+   has no trace, so it is executed again whenever it is dispatchable.  A failing command leaves
+   the files as they are (the simulated steps of E3 exit before writing; what a real command
+   leaves at its output paths is never read: the outputs are not BUILT). *)
 Record asys := mkA {
   abase : sys;
   adyn : N -> list N;        (* step id -> remembered amended inputs *)
-  adef : N -> bool }.        (* step id -> deferred *)
+  adef : N -> bool;          (* step id -> deferred *)
+  afail : N -> bool }.       (* step id -> FAILED (the state proper is then Pending) *)
 
-Definition empty_asys : asys := mkA empty_sys (fun _ => []) (fun _ => false).
+Definition empty_asys : asys := mkA empty_sys (fun _ => []) (fun _ => false) (fun _ => false).
 
 Section Amend.
   Variable run : N -> list (option N) -> list (option N) -> N -> N.
   Variable amend : N -> list (option N) -> list N.
+  Variable fails : N -> list (option N) -> list (option N) -> bool.
   Variable gate : bool.
 
   (* what the step would amend, given the present contents of its declared inputs *)
@@ -565,24 +584,33 @@ Section Amend.
   Definition clear_flags (proj : project) (q : step) (y : asys) : N -> bool :=
     fun id => adef y id && negb (existsb (fun p => memN p (out q)) (adyn y id)).
 
-  Inductive decision := DNone | DSkip | DRun | DDefer.
+  Inductive decision := DNone | DSkip | DRun | DDefer | DFail.
+
+  (* would the command fail on the present contents (declared ++ amended inputs) and values *)
+  Definition fails_now (b : sys) (s : step) : bool :=
+    fails (sid s) (map (fs b) (inp (eff b s))) (map (ev b) (envn s)).
 
   Definition decide (proj : project) (s : step) (y : asys) : decision :=
     let b := abase y in
     if is_succ (stt b (sid s)) then DNone
     else if negb (ready proj b s) || dyn_blocked proj y s then DNone
     else if all_avail proj b (adyn y (sid s)) && can_skip (remb y s) b then DSkip
-    else if all_avail proj b (extra_now b s) then DRun else DDefer.
+    else if all_avail proj b (extra_now b s) then (if fails_now b s then DFail else DRun)
+    else DDefer.
 
   Definition a_step_build (proj : project) (s : step) (y : asys) : asys :=
     let b := abase y in
     match decide proj s y with
     | DNone => y
-    | DSkip => mkA (do_skip (remb y s) b) (adyn y) (clear_flags proj s y)
+    | DSkip => mkA (do_skip (remb y s) b) (adyn y) (clear_flags proj s y) (upd (afail y) (sid s) false)
     | DRun => mkA (do_run run (eff b s) b) (upd (adyn y) (sid s) (extra_now b s))
-                  (upd (clear_flags proj s y) (sid s) false)
+                  (upd (clear_flags proj s y) (sid s) false) (upd (afail y) (sid s) false)
     | DDefer => mkA (mkSys (fs b) (ev b) (upd (tr b) (sid s) None) (stt b))
                     (upd (adyn y) (sid s) (extra_now b s)) (upd (adef y) (sid s) true)
+                    (upd (afail y) (sid s) false)
+    | DFail => mkA (mkSys (fs b) (ev b) (upd (tr b) (sid s) None) (stt b))
+                   (upd (adyn y) (sid s) (extra_now b s)) (upd (adef y) (sid s) false)
+                   (upd (afail y) (sid s) true)
     end.
 
   Definition a_build (proj : project) (y : asys) : asys :=
@@ -603,7 +631,7 @@ Section Amend.
 
   (* the startup rescan: pending propagation runs over declared and remembered edges; a step one
      of whose inputs changed, or became outdated by the propagation, or one of whose variables
-     changed, loses its flag *)
+     changed, loses its flag; every FAILED step is PENDING again *)
   Definition resync_a (proj : project) (y : asys) (w : world) : asys :=
     let b := abase y in
     let f' := fun x => if is_output proj x then fs b x else fst w x in
@@ -618,7 +646,8 @@ Section Amend.
         (fun id => adef y id &&
                    negb (existsb (fun s => (sid s =? id) &&
                                            (existsb dirty (inp s ++ adyn y id) || existsb denv (envn s)))
-                                 proj)).
+                                 proj))
+        (fun _ => false).
 
   Definition build_world_a (proj : project) (w : world) (y : asys) : asys :=
     a_build proj (resync_a proj y w).
@@ -628,9 +657,25 @@ Section Amend.
   Definition wf_a (proj : project) : Prop :=
     forall y, wf (eproj proj y) = true.
 
-  (* a finished state: the defining equations of the static engine at the steps with their
-     amended inputs made explicit *)
-  Definition Finished_a (proj : project) (y : sys) : Prop := Finished run (eproj proj y) y.
+  (* a finished state: the defining equations at every step with its amended inputs made explicit:
+     declared and amended inputs all available and the command succeeds => SUCCEEDED with outputs
+     run(contents of declared ++ amended inputs, variables); all available and the command fails
+     => FAILED; otherwise PENDING (not dispatchable, or deferred) *)
+  Definition Local_a (proj : project) (y : asys) (s : step) : Prop :=
+    let b := abase y in
+    if ready proj b (eff b s) then
+      if fails_now b s
+      then stt b (sid s) = Pending /\ afail y (sid s) = true
+      else stt b (sid s) = Succeeded /\ afail y (sid s) = false /\
+           forall p, In p (out s) ->
+                     fs b p = Some (run (sid s) (map (fs b) (inp (eff b s))) (map (ev b) (envn s)) p)
+    else stt b (sid s) = Pending /\ afail y (sid s) = false.
+  Definition Finished_a (proj : project) (y : asys) : Prop := forall s, In s proj -> Local_a proj y s.
+
+  (* the observable result with failures: step states including FAILED, outputs of SUCCEEDED steps *)
+  Definition same_result_a (proj : project) (y z : asys) : Prop :=
+    same_result proj (abase y) (abase z) /\
+    forall s, In s proj -> afail y (sid s) = afail z (sid s).
 End Amend.
 
 (* amend given as a table: (step id, content id of the FIRST declared input, amended paths) *)
@@ -644,30 +689,44 @@ Definition amend_tab (tab : list (N * N * list N)) (id : N) (contents : list (op
   | _ => []
   end.
 
-(* correspondence checker for histories with amended inputs (harness/c01_engine.py) *)
-Fixpoint check_hist_a (tab : list (N * N * list N)) (proj : project) (y : asys)
-         (phases : list phase_spec) : bool :=
+(* fails given as a table: (step id, content id of the FIRST declared input) = the command fails
+   (a script step fails or not depending on the version of its script) *)
+Definition fail_tab (tab : list (N * N)) (id : N) (contents envs : list (option N)) : bool :=
+  match contents with
+  | Some c :: _ => existsb (fun x => (fst x =? id) && (snd x =? c)) tab
+  | _ => false
+  end.
+Definition no_fail (id : N) (contents envs : list (option N)) : bool := false.
+
+(* correspondence checker for histories with amended inputs and failing steps
+   (harness/c01_engine.py): per build the log, the final SUCCEEDED set, the final FAILED set
+   ([efl]: (step, FAILED?)) and which outputs changed *)
+Definition phase_spec_a := (phase_spec * list (N * bool))%type.
+Fixpoint check_hist_a (tab : list (N * N * list N)) (ftab : list (N * N)) (proj : project) (y : asys)
+         (phases : list phase_spec_a) : bool :=
   match phases with
   | [] => true
-  | (src, env, elog, est, echg) :: rest =>
+  | ((src, env, elog, est, echg), efl) :: rest =>
     let y1 := resync_a proj y (src_of src, src_of env) in
-    let y2 := a_build mix_run (amend_tab tab) true proj y1 in
-    log_eqb (a_build_log mix_run (amend_tab tab) true proj proj y1) elog &&
+    let y2 := a_build mix_run (amend_tab tab) (fail_tab ftab) true proj y1 in
+    log_eqb (a_build_log mix_run (amend_tab tab) (fail_tab ftab) true proj proj y1) elog &&
     forallb (fun x => Bool.eqb (is_succ (stt (abase y2) (fst x))) (snd x)) est &&
+    forallb (fun x => Bool.eqb (afail y2 (fst x)) (snd x)) efl &&
     forallb (fun x => Bool.eqb (negb (oN_eqb (fs (abase y2) (fst x)) (fs (abase y) (fst x)))) (snd x)) echg &&
-    check_hist_a tab proj y2 rest
+    check_hist_a tab ftab proj y2 rest
   end.
 
-Fixpoint trace_hist_a (tab : list (N * N * list N)) (proj : project) (y : asys)
-         (phases : list phase_spec)
-  : list (list (N * bool) * list (N * bool) * list (N * bool)) :=
+Fixpoint trace_hist_a (tab : list (N * N * list N)) (ftab : list (N * N)) (proj : project) (y : asys)
+         (phases : list phase_spec_a)
+  : list (list (N * bool) * list (N * bool) * list (N * bool) * list (N * bool)) :=
   match phases with
   | [] => []
-  | (src, env, _, est, echg) :: rest =>
+  | ((src, env, _, est, echg), efl) :: rest =>
     let y1 := resync_a proj y (src_of src, src_of env) in
-    let y2 := a_build mix_run (amend_tab tab) true proj y1 in
-    (a_build_log mix_run (amend_tab tab) true proj proj y1,
+    let y2 := a_build mix_run (amend_tab tab) (fail_tab ftab) true proj y1 in
+    (a_build_log mix_run (amend_tab tab) (fail_tab ftab) true proj proj y1,
      map (fun x => (fst x, is_succ (stt (abase y2) (fst x)))) est,
+     map (fun x => (fst x, afail y2 (fst x))) efl,
      map (fun x => (fst x, negb (oN_eqb (fs (abase y2) (fst x)) (fs (abase y) (fst x))))) echg)
-      :: trace_hist_a tab proj y2 rest
+      :: trace_hist_a tab ftab proj y2 rest
   end.
